@@ -1,11 +1,13 @@
 package rules
 
 import (
+	"fmt"
 	"go/ast"
 	"go/constant"
 	"go/token"
 	"go/types"
 	"golang.org/x/tools/go/packages"
+	"os"
 	"strings"
 
 	"golang.org/x/tools/go/ssa"
@@ -594,6 +596,9 @@ func annoEndRule(R string) RuleFunc {
 					continue
 				}
 				n++
+				if os.Getenv("JSV_DEBUG_ANNO") != "" {
+					fmt.Fprintf(os.Stderr, "ANNO %s finds=%v stores=%v next=%s guard=%s\n", name, p.finds, p.stores, p.next, p.guard)
+				}
 				ok := strings.Contains(p.next, "$")
 				c.Check(ok, R, core.F("%s:LF#%d", name, n), c.P.Pos(m.states[name].Pos()), "state "+name+": the line end that closes an inline annotation installs the next-line guard ("+p.next+")", "this way of ending an inline annotation goes straight back to the interrupted state ("+p.next+"): an annotation on the next line is accepted here but refused after the sibling endings and under CRLF")
 				break
@@ -601,6 +606,27 @@ func annoEndRule(R string) RuleFunc {
 		}
 		if n == 0 {
 			c.Bad(R, "states", "-", "states closing an inline annotation at a line end", "undecided: none found")
+		}
+		// every path that installs the next-line guard (the line of an inline annotation ends here, with or
+		// without a `#` comment behind the note) also leaves the inline-annotation mode: it assigns s.annotation
+		k := 0
+		for _, name := range m.names {
+			for _, p := range m.rows[name]['\n'].paths {
+				if p.kind != "return" || !strings.Contains(p.next, "$") {
+					continue
+				}
+				k++
+				reset := false
+				for _, st := range p.stores {
+					if strings.HasPrefix(st, "annotation=") {
+						reset = true
+					}
+				}
+				c.Check(reset, R, core.F("%s:LF:mode#%d", name, k), c.P.Pos(m.states[name].Pos()), "state "+name+": the line end that ends an inline annotation line resets the annotation mode", "the scanner stays in inline-annotation mode after this line end (the sibling states reset it): a second line break or a blank line behind the annotation is then refused as `inside inline annotation`, so the verdict and Len() depend on what follows")
+			}
+		}
+		if k < 3 {
+			c.Bad(R, "states:mode", "-", "states ending an inline annotation line", core.F("undecided: only %d paths install the next-line guard", k))
 		}
 	}
 }
